@@ -179,3 +179,16 @@ Theorem C09_mesh_delivery_decreases : forall nodes adj cfg lab lat,
   (mu nodes (abs_state c') < mu nodes (abs_state c))%nat.
 Proof. exact mesh_delivery_decreases. Qed.
 Print Assumptions C09_mesh_delivery_decreases.
+
+From Verif Require Gen.
+
+(* ---------- the table update of one delivery is one atomic step (go/ast obligation on the source under test) ---------- *)
+(* The mesh model (cstep) handles one delivered announcement as ONE transition of the receiving
+   router's table.  A router runs one frame worker per CPU, all of which end in AddRoute: the steps
+   of the real router are transitions of the model only if every mutating table operation is one
+   critical section under the table's write lock (taken once, unlock deferred at once, no entry
+   touched before, no other lock call) and every lookup one critical section under the read lock.
+   Both are computed from m/table.go on every run. *)
+Theorem C09_table_update_is_one_step : Gen.table_ops_serialised = true /\ Gen.lock_discipline_table = true.
+Proof. split; reflexivity. Qed.
+Print Assumptions C09_table_update_is_one_step.
